@@ -79,6 +79,7 @@ func runC12(c *Ctx) {
 	c.Rule("C12.R2", "route tables and effective-config maps: build aside, swap under the lock", 20)
 	c.Rule("C12.R3", "no replace-style update inside a loop over the parts of one assignment", 3)
 	c.Rule("C12.R4", "removal deletes the live entry and records the removal for the same name", 3)
+	c.Rule("C12.R5", "recorders store what they are given on every path (skips only for nil, missing key, DeepEqual)", 7)
 	c.NotDecided = append(c.NotDecided, "observational equivalence of the live state with a MOSN restarted from the dump (needs running both)", "xDS conversion of individual fields")
 
 	isNilErrReturn := func(in ssa.Instruction) bool {
@@ -411,6 +412,8 @@ func runC12(c *Ctx) {
 	if nconf < 15 {
 		c.Unresolved("C12.R2", fmt.Sprintf("accesses of the effective config (found %d)", nconf))
 	}
+
+	c12Recorders(c)
 
 	// R3
 	replace := map[string]int{"TriggerClusterHostUpdate": 0, "UpdateClusterHosts": 0, "AddOrUpdateRouters": 0}
